@@ -149,3 +149,12 @@ prop("C12",
                   "guarded lists: constructors and loop bodies of guarded elements are executed speculatively (their side effects on other objects -- observer registration -- over-approximate); exceptions and returns under a guard fork on the guard",
                   "only the async facade (GeckoAsyncFacade) is under contract; the legacy sync GeckoFacade.scan_outputs is not"],
      explanation="presence guard of every element of the facade's pump / blower / light lists proved equivalent to the wiring condition of the statement, for every block; order, class, name, demand item and mode list from the device table; sensor lists; distinct keys and unique ids; lookup by key")
+
+prop("C19",
+     level="proof",
+     bounded=["traffic_segment_round_trips_bounded: GeckoSnapshot._re_data_segment on every 1-byte payload and every 2-byte payload whose first byte is one of 19 tricky values (quick) / any value (thorough)"],
+     assumptions=["PARTIAL claim. ASSUMED and outside the verifier: regular-expression capture (which substring of a log line reaches each handler), logging.Formatter ('%s' of a list is str(list), of bytes is repr(bytes)), file iteration in parse_log_file, datetime",
+                  "NOT claimed: that each of the 34 shipped snapshot files parses and is served unchanged (no contract within reach decides file parsing; running them would be testing)",
+                  "the traffic-log reassembly of whole transfers reuses the C01 chain contract; only the per-segment text decode is checked here, bounded",
+                  "repr() / ast.literal_eval / str() / hex() on concrete values are executed by CPython (partial evaluation)"],
+     explanation="hex-list decode: element lemmas for all 256 byte values + separator lemma + one full block through the real _re_data (ground, complete); header getters; set_snapshot contract per platform with differing config/log versions and a symbolic block; bounded per-segment traffic decode")
